@@ -1,4 +1,5 @@
 import Proofs.SeqSteps
+import Proofs.SeqStore2
 import Proofs.SeqDemo
 /-! C03 — A crash at any point of sequencing or recovery is recoverable without loss.
 `Reachable` includes a `crash` event at every point between two storage/lock operations of a round
@@ -44,6 +45,24 @@ theorem C03_recoverable_partial {s s' : Sys} (r : Reachable s) (i : Nat) (c : Ck
   have := (inv_reachable r).inst i
   simp only [InstOK, hph, LoadOK] at this
   exact ⟨this, ht⟩
+
+/-- After a restart has loaded successfully — from whatever crash state, with whatever was applied of the
+    operations in flight — every tile of the tree committed in the lock store is present in object storage
+    with the prescribed content (no tampering). -/
+theorem C03_loaded_complete {s s' : Sys} (r : Reachable s) (ht : s.tampered = false) (i : Nat) (c : Ck)
+    (h : step s (.loaded i c) = some s') : Complete s.store c.leaves := by
+  obtain ⟨hph, _⟩ := loaded_sound s s' i c h
+  have := (inv3_reachable r ht).inst i
+  simpa [SOK, hph] using this
+
+/-- A staged bundle in storage always belongs to a completely rendered base tree: re-applying it
+    (idempotently: tiles are immutable) yields the completely rendered committed tree. -/
+theorem C03_staged_bundle_recovers {s : Sys} (r : Reachable s) (ht : s.tampered = false) (tr : Tree)
+    (items : List (TileId × Tree)) (imm : Bool) (hs : s.store (.staging tr) = some (.bundle items, imm)) :
+    ∃ old, bundleOK old.length tr items = true ∧ old <+: tr ∧ Complete s.store old ∧
+      ∀ st', TileLe s.store st' → (∀ t ∈ items.map (·.1), Good st' tr t) → Complete st' tr := by
+  obtain ⟨old, hb, hp, hc⟩ := (inv3_reachable r ht).staged tr items imm hs
+  exact ⟨old, hb, hp, hc, fun st' hle hg => complete_of_bundle (hc.mono hle) hp hb hg⟩
 
 /-- crash events are accepted in every state -/
 theorem C03_crash_anywhere (s : Sys) (i : Nat) : ∃ s', step s (.crash i) = some s' := ⟨_, rfl⟩
